@@ -2499,10 +2499,11 @@ resize_receive_buffer (PseudoTcpSocket *self, guint32 new_size)
   result = pseudo_tcp_fifo_set_capacity (&priv->rbuf, new_size);
 
   // Make sure the new buffer is large enough to contain data in the old
-  // buffer. This should always be true because this method is called either
-  // before connection is established or when peers are exchanging connect
-  // messages.
-  g_assert (result);
+  // buffer. This is true when this method is called before the connection is
+  // established, but a peer may send a connect message at any time: keep the
+  // current buffer rather than aborting if the unread data does not fit.
+  if (!result)
+    return;
   priv->rbuf_len = new_size;
   priv->rwnd_scale = scale_factor;
   priv->ssthresh = new_size;
